@@ -32,7 +32,7 @@ CFG = {
                  "contract check on the implementation's output",
     "design_ref": "DESIGN.md §3.2, §4 C03, §5 #2 #24 #25 #26",
     "n_quick": 1300, "n_thorough": 12000,
-    "rule": "20 local operations once per run at a vertex count around a power of two (1023..12289; thorough ..65537), tail of the vertex array referenced or not (disjoint-union law); one history in 20 keeps the real mesh values of a branching history (3-7 operations, base with spare slice capacity) and re-reads every retained value after every later operation; 2 of 24 cases are needle/sliver RemoveNullFaces3D cases (aspect 1e3-1e9, scales 2^-40..2^20, thresholds decided exactly), 3 of 24 start from a surface with a definite neighbourhood structure (open fan, strip, grid, non-manifold edge, repeated-index, bow-tie, tetrahedron, line strip/loop/list) followed by Laplacian / Laplacian-along-axis / normals; float-valued operations and centre run at power-of-two scales 2^-40..2^20 two times in three (reference from the integer mesh, relative 1e-9); of the remaining histories 4 of 10 start from random well-formed meshes, 3 from structured meshes (unreferenced vertices none/front/middle/back/several x degenerate primitives none/some/all, well-separated integer coordinates of both signs), 1 from a generator triangle list with integer positions reduced by SetIndices to a subset of its primitives, 2 from vertices clustered in the same and adjacent rounding cells (widths 1, 10, 100; centres, just inside and on the cell boundaries) welded at the matching decimal place; structured sources mostly get the index-remapping operations; random well-formed meshes (6 topologies; 0-10 vertices; identity, permuted, repeated, sparse and empty index "
+    "rule": "20 local operations on a ladder of vertex counts (one rung each at 2^10+1 .. 2^15+1; thorough also 2^16+1, 2^17+1): every operation at BOTH rungs >= 2^14 and one rotating lower rung per run, topologies and call variants rotating over the rungs, tail of the vertex array referenced or not (disjoint-union law); one history in 20 keeps the real mesh values of a branching history (3-7 operations, base with spare slice capacity) and re-reads every retained value after every later operation; 2 of 24 cases are needle/sliver RemoveNullFaces3D cases (aspect 1e3-1e9, scales 2^-40..2^20, thresholds decided exactly), 3 of 24 start from a surface with a definite neighbourhood structure (open fan, strip, grid, non-manifold edge, repeated-index, bow-tie, tetrahedron, line strip/loop/list) followed by Laplacian / Laplacian-along-axis / normals; float-valued operations and centre run at power-of-two scales 2^-40..2^20 two times in three (reference from the integer mesh, relative 1e-9); of the remaining histories 4 of 10 start from random well-formed meshes, 3 from structured meshes (unreferenced vertices none/front/middle/back/several x degenerate primitives none/some/all, well-separated integer coordinates of both signs), 1 from a generator triangle list with integer positions reduced by SetIndices to a subset of its primitives, 2 from vertices clustered in the same and adjacent rounding cells (widths 1, 10, 100; centres, just inside and on the cell boundaries) welded at the matching decimal place; structured sources mostly get the index-remapping operations; random well-formed meshes (6 topologies; 0-10 vertices; identity, permuted, repeated, sparse and empty index "
             "lists; 0-4 attributes of arity 1-4 incl. equal names in two arities and keys with empty arrays; duplicated "
             "vertex values; material ranges incl. empty and repeated ones), one of 29 operations per step (function, "
             "Transformer-struct and Mesh-method variants; ~1/10 with a wrong topology or missing attribute), histories of "
